@@ -51,6 +51,8 @@ fn main() {
                 "C09" => checks::c09::run(&tier, &args),
                 "C03" => checks::c03::run(&tier, &args),
                 "C02" => checks::c02::run(&tier, &args),
+                "C04" => checks::c04::run(&tier, &args),
+                "C06" => checks::c06::run(&tier, &args),
                 _ => { eprintln!("unknown property {id}"); 2 }
             };
             std::process::exit(code);
@@ -114,6 +116,11 @@ fn smoke() {
     match rp::full_check(&w) {
         Ok(r) => println!("RP ok: {} cas, {} accepted, vrps {:?} aspas {:?} rk {:?}", r.cas.len(), r.accepted.len(), r.vrps, r.aspas, r.router_keys),
         Err(e) => println!("RP problems: {e:#?}"),
+    }
+    if std::env::var("RMTMP").is_ok() {
+        std::fs::remove_dir_all("data/.tmp").unwrap();
+        let o = w.apply_pumped(&ops::Op::Roa{ca:"ca".into(), add: vec!["10.0.5.0/24 => 65000".into()], del: vec![]});
+        println!("after rm .tmp: {o:?} exists={}", std::path::Path::new("data/.tmp").exists());
     }
     if std::env::var("FPDIFF").is_ok() {
         w.settle().unwrap();
